@@ -1,6 +1,7 @@
 use std::collections::{HashMap, HashSet};
 
-use combine::{Parser, choice, many1, optional};
+use combine::error::StreamError;
+use combine::{Parser, attempt, choice, easy, many1, optional};
 use redis_protocol::resp3;
 use redis_protocol::resp3::types::BytesFrame;
 use sierradb::StreamId;
@@ -151,7 +152,7 @@ impl Selector {
     // <stream_id_1> [PARTITION_KEY <pk_1>] <stream_id_2> [PARTITION_KEY <pk_2>]
     fn parser<'a>() -> impl Parser<FrameStream<'a>, Output = Self> + 'a {
         many1::<HashSet<_>, _, _>((
-            stream_id(),
+            selector_stream_id(),
             optional(keyword("PARTITION_KEY").with(partition_key())),
         ))
         .map(|stream_ids| {
@@ -170,6 +171,22 @@ impl Selector {
     }
 }
 
+// A positional stream id of the selector: the clause keywords end the list
+// instead of being read as further stream ids.
+fn selector_stream_id<'a>() -> impl Parser<FrameStream<'a>, Output = StreamId> + 'a {
+    attempt(stream_id().and_then(|stream_id| {
+        if ["FROM", "WINDOW", "PARTITION_KEY"]
+            .iter()
+            .any(|kw| stream_id.eq_ignore_ascii_case(kw))
+        {
+            return Err(easy::Error::message_format(
+                "keyword cannot be used as a stream id",
+            ));
+        }
+        Ok(stream_id)
+    }))
+}
+
 pub enum FromVersionsArg {
     Latest,
     Streams(HashMap<StreamId, u64>),
@@ -180,7 +197,7 @@ pub enum FromVersionsArg {
 fn from_versions<'a>() -> impl Parser<FrameStream<'a>, Output = FromVersionsArg> + 'a {
     let latest = keyword("LATEST").map(|_| FromVersionsArg::Latest);
     let sequence = number_u64().map(FromVersionsArg::AllStreams);
-    let map = (keyword("MAP").with(many1::<HashMap<_, _>, _, _>(stream_id_version())))
+    let map = (keyword("MAP").with(many1::<HashMap<_, _>, _, _>(attempt(stream_id_version()))))
         .map(FromVersionsArg::Streams);
 
     keyword("FROM").with(choice((latest, sequence, map)))
